@@ -52,6 +52,9 @@ def gen_case(r, big):
     ncls = r.choice([2, 3])
     target = [i % ncls for i in range(n)]
     r.shuffle(target)
+    sc = r.choice([1, 1, 1, 1, 1e6, 1e12, 1e15])  # huge counts: the prior's share of the posterior underflows relative to the counts
+    if sc != 1:
+        A = [[v * sc for v in row] for row in A]
     return {"A": A, "prior_strength": r.choice([1e-4, 0.1, 1.0, 5.0]), "weight_power": r.choice([1.0, 2.0]),
             "approx": r.random() < 0.4, "permseed": r.randrange(10**6), "target": target, "zeros_at": [[r.randrange(n), r.randrange(m)] for _ in range(3)]}
 
@@ -204,7 +207,7 @@ def check_case(ctx, c):
                 wexp = np.maximum(ref / ref.mean(), 0) ** c["weight_power"]
                 if not np.allclose(w, wexp, rtol=1e-8, atol=1e-10):
                     viol("transformer/weights-differ-from-normalised-KL", "information_weights_ != (KL/mean KL)^power", {"w": w, "expected": wexp})
-        if not np.allclose(Td, A * w[None, :], rtol=1e-12, atol=1e-12):
+        if not np.allclose(Td, A * w[None, :], rtol=1e-12, atol=1e-12 * max(1.0, float(np.abs(A).max()))):
             viol("transformer/not-a-column-scaling", "transform(X) != X @ diag(information_weights_)", {"maxdiff": float(np.max(np.abs(Td - A * w[None, :])))})
         if np.any((Td != 0) & (A == 0)):
             viol("transformer/creates-nonzero", "transform created a non-zero where the input had none")
@@ -215,8 +218,21 @@ def check_case(ctx, c):
         d = lambda M: M.toarray() if sp.issparse(M) else np.asarray(M)
         lhs = d(est.transform(mk(a_ * A + b_ * B)))
         rhs = a_ * d(est.transform(mk(A))) + b_ * d(est.transform(mk(B)))
-        if not np.allclose(lhs, rhs, rtol=1e-12, atol=1e-12):
+        if not np.allclose(lhs, rhs, rtol=1e-12, atol=1e-12 * max(1.0, float(np.abs(A).max()))):
             viol("transformer/not-linear", "transform(aX+bY) != a T(X) + b T(Y)")
+        # history: fit -> transform -> fit on other data -> transform must use the *new* weights
+        try:
+            A2 = A[:, ::-1].copy() + (B > 1)
+            est.fit(mk(A2))
+            w2 = np.asarray(est.information_weights_, dtype=float)
+            T2 = d(est.transform(mk(A2)))
+            ctx.count("refit_transform_checks")
+            if np.all(np.isfinite(w2)) and not np.allclose(T2, A2 * w2[None, :], rtol=1e-12, atol=1e-12 * max(1.0, float(np.abs(A2).max()))):
+                viol("transformer/stale-weights-after-refit", "after a second fit, transform does not scale by the newly learned information_weights_")
+            est.fit(Xin)
+            w = np.asarray(est.information_weights_, dtype=float)
+        except Exception as e:
+            viol("transformer/refit-raises/%s" % type(e).__name__, "second fit / transform raised %s" % str(e)[:160])
         w_before = w.copy()
         est.transform(mk(B))
         if not np.array_equal(w_before, est.information_weights_):
